@@ -22,7 +22,7 @@ from common import VERIF
 
 LEVEL = "proof"
 RULE = ("local-adapter studies: 1-6 steps, chains / fans / funnels / diamonds with ordinary and "
-        "funnel dependencies, 0-2 parameters, attempts in {1,2,3}, an exit code per (instance, "
+        "funnel dependencies, 0-2 parameters, 40% of the steps with a restart command, attempts in {1,2,3}, an exit code per (instance, "
         "attempt) with ~25% non-zero; non-trivial = some attempt exits non-zero; distinct = distinct "
         "(specification, plan)")
 
@@ -62,6 +62,9 @@ def gen_study(rng, root):
         if params and rng.random() < 0.6:
             cmd = "# uses $(%s)\n" % rng.choice(list(params)) + cmd
         run = {"cmd": cmd}
+        if rng.random() < 0.4:
+            # a restart command is for jobs that timed out; a local step never does, so it never runs
+            run["restart"] = 'echo "R $(pwd)" >> %s\nexit 0\n' % log
         if dep:
             run["depends"] = dep
         steps.append({"name": nm, "description": "d", "run": run})
@@ -135,6 +138,9 @@ def one_study(ctx, k):
             if parts[1] not in ws_to_key:
                 mon.append(("own-workspace", "a script ran in %s, which is no instance workspace" % parts[1]))
             starts.append(ws_to_key.get(parts[1], parts[1]))
+        elif parts[0] == "R":
+            mon.append(("run-count", "the restart script of %s was run (nothing timed out: every attempt "
+                        "of a locally executed step runs the step's own script)" % ws_to_key.get(parts[1], parts[1])))
         elif parts[0] == "E":
             ends.append((ws_to_key.get(parts[1], parts[1]), int(parts[2])))
             open_run = None
@@ -148,7 +154,8 @@ def one_study(ctx, k):
     subs = [1 if code == 0 else 0 for _k, code in ends]
     n = len(insts)
     head = ("exec.graph n=%d edges=%s sched=%s restart=%s rlimit=1 throttle=0 attempts=%d dry=0 subs=%s"
-            % (n, ",".join("%d>%d" % e for e in edges), "0" * n, "0" * n, attempts,
+            % (n, ",".join("%d>%d" % e for e in edges), "0" * n,
+               "".join("1" if dag0.values[key].step.run.get("restart") else "0" for key in insts), attempts,
                "".join(map(str, subs))))
     # the implementation's side of the comparison, reconstructed from the log,
     # status.csv and the exit code; polls are replayed until the model finishes
@@ -214,7 +221,7 @@ def one_study(ctx, k):
         mon.append(("exit-code-decides", "every step succeeded but maestro exited %d" % rc))
     if not allok and rc != 2:
         mon.append(("exit-code-decides", "some step failed but maestro exited %d\n%s" % (rc, p.stderr[-300:])))
-    data = {"spec_steps": [(s["name"], s["run"].get("depends", [])) for s in spec["study"]],
+    data = {"spec_steps": [(s["name"], s["run"].get("depends", []), "restart" in s["run"]) for s in spec["study"]],
             "params": spec.get("global.parameters"), "attempts": attempts,
             "plan": {"%s#%d" % k_: v for k_, v in plan_map.items()}, "exit_code": rc}
     c = Case(data, lines_m, None, mon[:4], any(v != 0 for v in plan_map.values()))
